@@ -12,7 +12,8 @@ for p in props:
     mod = None
     if os.path.exists(path):
         mod = importlib.import_module(f"harness.props.{pid}")
-    if mod is not None and hasattr(mod, "MANIFEST") and pid not in PENDING:
+    done = os.path.exists(os.path.join(HERE, "design-notes", "reports", pid + ".md")) or pid == "C07"
+    if mod is not None and hasattr(mod, "MANIFEST") and pid not in PENDING and done:
         m = mod.MANIFEST
         checks.append({
             "property_id": pid,
